@@ -144,7 +144,10 @@ def big_totals(chk, cat, sections, overview, headings):
             chk.violation('%s:report:%s' % (cat, role_of(cwhy)), '%s report for %d findings of %s in one file: %s' % (cat, total, v0, cwhy),
                           {'job': 'report', 'category': cat, 'findings': spec[:200] + '...', 'why': cwhy}); break
         chk.ok()
-    for name in ('Tökén.sol', '合约合.sol', 'ſ.sol', 'a b:c.sol', 'x'):
+    # file names are data: names that read like a placeholder of a template, a format directive, a capture reference, an entry, a
+    # heading or markdown must come out as they went in
+    for name in ('Tökén.sol', '合约合.sol', 'ſ.sol', 'a b:c.sol', 'x', 'Template{line}.sol', '{file}{line}', '{}.sol', '{0}:{1}', '%s:%d.sol',
+                 '$1.sol', '\\1\\n.sol', '- A.sol:7', 'A.sol:7', '### Lines', '# x', '<!-- x', '*a*_b_`c`.sol', ' lead.sol', 'trail.sol ', '\tTab.sol'):
         conc = [(v0, [(name, [5, 17])])]
         spec = '%s|%s|5,17' % (n0, hexs(name))
         nat = chk.native.run([['report', cat, spec]])[0]
